@@ -509,32 +509,30 @@ def rename_def(d, neutral=False):
     return td, m
 
 def name_map(info_a, info_b, hook_map):
-    """every derived name of definition a mapped to the corresponding one of its twin b (same positions);
-    None when the textual mapping would be ambiguous (a name that coincides with another name's derived
-    form, e.g. a lower-case state name and its own snake_case form under a permutation): such a twin is not
-    compared — the comparison is textual and would report a difference that is the harness's"""
-    m = {}
-    ok = [True]
-    def put(k, v):
+    """(forward, inverse): `forward` maps what occurs in *operation* lines of definition a (state names, event
+    names / variants / methods, hook names) to the twin's; `inverse` maps what occurs in the twin's *observation*
+    lines (also snake_case forms, field names, setter names) back to a's. Either is None when it would be
+    ambiguous as a textual map (one token standing for two different things): such a twin is not compared —
+    the comparison is textual and a difference would be the harness's."""
+    fwd, inv = {}, {}
+    ok = [True, True]
+    def put(m, which, k, v):
         if k in m and m[k] != v:
-            ok[0] = False
+            ok[which] = False
         m[k] = v
     for k, v in hook_map.items():
-        put(k, v)
+        put(fwd, 0, k, v); put(inv, 1, v, k)
     for x, y in zip(info_a['states'], info_b['states']):
-        put(x['name'], y['name']); put(x['snake'], y['snake'])
+        put(fwd, 0, x['name'], y['name'])
+        put(inv, 1, y['name'], x['name']); put(inv, 1, y['snake'], x['snake'])
     for x, y in zip(info_a['storage'], info_b['storage']):
-        put(x['state'], y['state']); put(x['field'], y['field']); put('set_' + x['snake'] + '_data', 'set_' + y['snake'] + '_data')
+        put(fwd, 0, x['state'], y['state']); put(fwd, 0, x['field'], y['field'])     # `w=<field>~v` in scripts
+        put(inv, 1, y['state'], x['state']); put(inv, 1, y['field'], x['field'])
+        put(inv, 1, 'set_' + y['snake'] + '_data', 'set_' + x['snake'] + '_data')
     for x, y in zip(info_a['events'], info_b['events']):
-        put(x['name'], y['name']); put(x['pascal'], y['pascal']); put(x['method'], y['method'])
-    if len(set(m.values())) != len(m):
-        # not injective: mapping back would be ambiguous too (unless two keys are mapped alike on purpose)
-        inv = {}
-        for k, v in m.items():
-            if v in inv and inv[v] != k and not (m.get(inv[v]) == v and m.get(k) == v and k.lower() == inv[v].lower()):
-                ok[0] = False
-            inv[v] = k
-    return m if ok[0] else None
+        put(fwd, 0, x['name'], y['name']); put(fwd, 0, x['pascal'], y['pascal']); put(fwd, 0, x['method'], y['method'])
+        put(inv, 1, y['name'], x['name']); put(inv, 1, y['pascal'], x['pascal']); put(inv, 1, y['method'], x['method'])
+    return (fwd if ok[0] else None), (inv if ok[1] else None)
 
 _IDENT = None
 def map_tokens(line, m):
@@ -774,11 +772,10 @@ def run(tier, seed, work, repo, suspects=None, strict_suspects=None):
                 continue
             base = by_id[t['twin_of']]
             if t['twin_kind'] == 'ren':
-                t['nm'] = name_map(base['info'], t['info'], t['hook_map'])
-                if t['nm'] is None:
+                t['nm'], t['inv'] = name_map(base['info'], t['info'], t['hook_map'])
+                if t['nm'] is None or t['inv'] is None:
                     result['twins_skipped_ambiguous_names'] = result.get('twins_skipped_ambiguous_names', 0) + 1
                     continue
-                t['inv'] = {v: k for k, v in t['nm'].items()}
             for sc in scns:
                 if sc['x'] is not base or sc['family'] == 'abandon':
                     continue
